@@ -173,6 +173,11 @@ def path_shapes(raw, recv_path: str, user_groups, user_dsets):
         ("rel:dblslash", f"{g}//metador_x"),
     ]
     res += [(f"nonexist:{lab}", p) for lab, p in nonex]
+    # the same names given as bytes (h5py accepts bytes names; IH5 treats them as literal text, so only the h5py driver is asked)
+    if type(raw).__module__.startswith("h5py"):
+        for lab, p in list(res):
+            if lab.startswith(("exist:abs:toc", "exist:rel:toc", "nonexist:rel:top", "nonexist:abs:top", "nonexist:rel:meta", "nonexist:rel:under-group")):
+                res.append(("bytes:" + lab, p.encode()))
     return res
 
 
@@ -467,6 +472,8 @@ def untouchability(rec, kind, d, history, box, stats, deadline):
                 calls = make_calls(r, p, u_ds, u_grp_node, u_grp)
                 if variant not in calls:
                     continue
+                if isinstance(p, bytes) and "name" in variant:
+                    continue  # copy(..., name=<bytes>) formats the name into text: the node is called "b'...'" and lies in the user's namespace
                 out, det = run_call(calls[variant], variant)
                 stats["calls"] += 1
                 if out == "hang":
@@ -474,7 +481,7 @@ def untouchability(rec, kind, d, history, box, stats, deadline):
                 okey = out + ":" + det if out == "raised" else out
                 stats["outcomes"][okey] = stats["outcomes"].get(okey, 0) + 1
                 rec.case((kind, variant, label, recv_path != "/", digest(history)), nontrivial=True)
-                case = {"part": "b", "kind": kind, "history": history, "receiver": recv_path, "variant": variant, "path": p, "label": label}
+                case = {"part": "b", "kind": kind, "history": history, "receiver": recv_path, "variant": variant, "path": p.decode() if isinstance(p, bytes) else p, "label": label}
                 rec.check(
                     out in ("raised", "invisible"),
                     f"c08:untouch:{variant}:{out}",
@@ -701,6 +708,7 @@ def replay(case: dict):
             ref.close()
             hit = [f"{a}: {det}" for a, det in bad if a == case.get("aspect")] or ([f"{a}: {det}" for a, det in bad] if case.get("aspect") is None else [])
             return bool(hit), ("; ".join(hit)[:600] if hit else "user view equals the plain tree, nothing reserved visible")
-        out, det, eff, diff = single_call_case(case["kind"], d, case["history"], case["receiver"], case["variant"], case["path"])
+        rp = case["path"].encode() if str(case.get("label", "")).startswith("bytes:") else case["path"]
+        out, det, eff, diff = single_call_case(case["kind"], d, case["history"], case["receiver"], case["variant"], rp)
         violated = eff or out not in ("raised", "invisible")
         return violated, f"{case['variant']}({case['path']!r}) on {case['receiver']}: {out} {det}; raw tree changed={eff} {diff}"
